@@ -372,6 +372,28 @@ fn itype_of(op: &Op) -> Result<InodeType, String> {
     })
 }
 
+/// The three flavours of the Rust API a caller can use for one and the same operation (see proto::Op::via).
+enum AnyRoot<'a> { Ref(pathrs::RootRef<'a>), Borrowed(&'a Root), Owned(Root) }
+
+macro_rules! any_root_delegate {
+    ($self:ident, $r:ident => $e:expr) => { match $self { AnyRoot::Ref($r) => $e, AnyRoot::Borrowed($r) => $e, AnyRoot::Owned($r) => $e } };
+}
+
+impl<'a> AnyRoot<'a> {
+    fn resolve(&self, p: &std::path::Path) -> Result<pathrs::Handle, pathrs::error::Error> { any_root_delegate!(self, r => r.resolve(p)) }
+    fn resolve_nofollow(&self, p: &std::path::Path) -> Result<pathrs::Handle, pathrs::error::Error> { any_root_delegate!(self, r => r.resolve_nofollow(p)) }
+    fn open_subpath(&self, p: &std::path::Path, f: OpenFlags) -> Result<std::fs::File, pathrs::error::Error> { any_root_delegate!(self, r => r.open_subpath(p, f)) }
+    fn readlink(&self, p: &std::path::Path) -> Result<std::path::PathBuf, pathrs::error::Error> { any_root_delegate!(self, r => r.readlink(p)) }
+    fn create(&self, p: &std::path::Path, it: &InodeType) -> Result<(), pathrs::error::Error> { any_root_delegate!(self, r => r.create(p, it)) }
+    fn create_file(&self, p: &std::path::Path, f: OpenFlags, perm: &Permissions) -> Result<std::fs::File, pathrs::error::Error> { any_root_delegate!(self, r => r.create_file(p, f, perm)) }
+    fn mkdir_all(&self, p: &std::path::Path, perm: &Permissions) -> Result<pathrs::Handle, pathrs::error::Error> { any_root_delegate!(self, r => r.mkdir_all(p, perm)) }
+    fn remove_file(&self, p: &std::path::Path) -> Result<(), pathrs::error::Error> { any_root_delegate!(self, r => r.remove_file(p)) }
+    fn remove_dir(&self, p: &std::path::Path) -> Result<(), pathrs::error::Error> { any_root_delegate!(self, r => r.remove_dir(p)) }
+    fn remove_all(&self, p: &std::path::Path) -> Result<(), pathrs::error::Error> { any_root_delegate!(self, r => r.remove_all(p)) }
+    fn rename(&self, p: &std::path::Path, q: &std::path::Path, f: RenameFlags) -> Result<(), pathrs::error::Error> { any_root_delegate!(self, r => r.rename(p, q, f)) }
+    fn try_clone(&self) -> Result<Root, pathrs::error::Error> { any_root_delegate!(self, r => r.try_clone()) }
+}
+
 fn get_root<'a>(st: &'a mut State, op: &Op) -> Result<&'a Root, Obs> {
     let key = op.root.clone().ok_or_else(|| harness_err("op needs root".into()))?;
     if !st.roots.contains_key(&key) {
@@ -430,7 +452,22 @@ fn run_op_inner(st: &mut State, op: &Op) -> Obs {
     let capi = op.api == "c";
     macro_rules! root {
         () => {
-            match get_root(st, op) { Ok(r) => r.as_ref().with_resolver_flags(rfl), Err(o) => return o }
+            match op.via.as_deref() {
+                None => match get_root(st, op) { Ok(r) => AnyRoot::Ref(r.as_ref().with_resolver_flags(rfl)), Err(o) => return o },
+                Some(via) => {
+                    if let Err(o) = get_root(st, op) { return o; }
+                    let r = st.roots.get_mut(op.root.as_deref().unwrap_or("")).unwrap();
+                    r.set_resolver_flags(rfl);
+                    if r.resolver_flags() != rfl { return harness_err("set_resolver_flags did not stick".into()); }
+                    let r: &Root = &*r;
+                    match via {
+                        "owned" => AnyRoot::Borrowed(r),
+                        "clone" => match r.as_ref().try_clone() { Ok(c) => AnyRoot::Owned(c), Err(e) => return err_obs(e) },
+                        "clone2" => match r.try_clone() { Ok(c) => AnyRoot::Owned(c), Err(e) => return err_obs(e) },
+                        o => return harness_err(format!("bad via {}", o)),
+                    }
+                }
+            }
         };
     }
     macro_rules! rootfd {
